@@ -36,6 +36,7 @@ def all_ops():
             ops.append('(ae %d %d)' % (v, w)); ops.append('(re %d %d)' % (v, w))
     for v in VARS: ops.append('(rae %d)' % v)
     for v in VARS: ops.append('(rel %d)' % v)
+    for x in MODELS + COMPS: ops.append('(cl %d)' % x)
     for c in MODELS + COMPS:
         for i in (0, 1, 5):
             for x in COMPS + [NULL]: ops.append('(rc %d %d %d)' % (c, i, x))
@@ -108,6 +109,8 @@ def frame(op, prev, cur):
         allowed = {int(t[1]), int(t[2])}
     elif h == 'rae':
         v = int(t[1]); allowed = {v} | set(x for x in prev.get(v, {}).get('equiv', []) if isinstance(x, int))
+    elif h == 'cl':
+        allowed = set()
     elif h == 'rel':
         v = int(t[1]); allowed = {v} | set(x for x in prev if v in prev[x].get('equiv', []))
     elif h in ('rc', 'ru'):
@@ -161,13 +164,13 @@ def run(chk, replay=None):
             lines.append('(heap %s %s %s)' % (' '.join(setup), rng.choice(alpha), rng.choice(alpha)))
         # histories about variables only: equivalences added and removed, variables moved, and the last reference to a
         # parentless variable dropped (its entries in other variables' weak equivalence lists expire)
-        valpha = [o for o in alpha if o.split()[0] in ('(ae', '(re', '(rae', '(rel', '(av') and ' %d' % NULL not in o] + ['(ri %d var 0)' % c for c in COMPS]
+        valpha = [o for o in alpha if o.split()[0] in ('(ae', '(re', '(rae', '(rel', '(av', '(cl', '(am', '(ac') and ' %d' % NULL not in o] + ['(ri %d var 0)' % c for c in COMPS]
         for _ in range(1500 if chk.tier == 'quick' else 30000):
             lines.append('(heap %s)' % ' '.join(rng.choice(valpha) for _ in range(rng.randint(3, 10))))
         # exhaustively: every order of two or three equivalences among the three variables (one of them owned by a
         # component or none), followed by every pair (thorough: triple) of release / removeAllEquivalences / removeEquivalence / addEquivalence
         vp = [(5, 6), (5, 7), (6, 7)]
-        tails = ['(rel %d)' % v for v in VARS] + ['(rae %d)' % v for v in VARS] + ['(re %d %d)' % p for p in vp] + ['(ae %d %d)' % p for p in vp]
+        tails = ['(rel %d)' % v for v in VARS] + ['(rae %d)' % v for v in VARS] + ['(re %d %d)' % p for p in vp] + ['(ae %d %d)' % p for p in vp] + ['(cl 0)', '(cl 2)']
         for own in ([], ['(am 0 2)', '(av 2 5)'], ['(am 0 2)', '(av 2 6)']):
             for n in (2, 3):
                 for pre in itertools.permutations(vp, n):
@@ -184,7 +187,7 @@ def run(chk, replay=None):
         impl = []
         for l in lines:
             rc1, o, _ = run_lines(hx, [], [l])
-            if not o:
+            if not o or not o[0].startswith('(r'):
                 crashed.append(l); impl.append('CRASH')
             else:
                 impl.append(o[0])
